@@ -577,12 +577,12 @@ def run(ctx):
     if props:
         res = vcheck.coq_build(props)
         ctx.coq_evidence(res)
-    per_variant = 400 if ctx.thorough() else 70
+    per_variant = 400 if ctx.thorough() else 60
     t0 = time.time()
     stats, ncases, bad, ncorpus = breadth(ctx, lincheck, per_variant)
     ctx.log("breadth: %d cases over %d variants, %d bad, %.1fs" % (ncases, len(stats), bad, time.time() - t0))
     t1 = time.time()
-    sstats, divs = step_stage(ctx, 6000 if ctx.thorough() else 1200)
+    sstats, divs = step_stage(ctx, 6000 if ctx.thorough() else 1000)
     ctx.log("step correspondence: %s, %.1fs" % ({k: (v["agree"], v["diverged"]) for k, v in sstats.items()}, time.time() - t1))
     if divs and bad == 0 and not any(v["monitor_bad"] for v in sstats.values()):
         # the correspondence broke and neither lincheck on the breadth run nor the monitors found a failing input
